@@ -3,6 +3,7 @@
 
 use std::collections::{BTreeMap, HashMap, HashSet};
 use std::io::{BufRead, BufReader, Write};
+use std::os::unix::process::CommandExt;
 use std::process::{Child, Command, Stdio};
 use std::time::{Duration, Instant};
 
@@ -105,6 +106,8 @@ pub struct WorkerCtx {
     pub seed: u64,
     /// replay mode: failures are collected instead of printed
     pub collected: Option<Vec<J>>,
+    /// (key, value) observations that must agree across all workers that report the key
+    pub pairs: Vec<(u64, u64)>,
 }
 
 impl WorkerCtx {
@@ -192,7 +195,22 @@ impl WorkerCtx {
         }
     }
 
+    /// Record an observation that every other worker reporting the same key must share.
+    pub fn agree(&mut self, key: u64, value: u64) {
+        self.pairs.push((key, value));
+    }
+
     pub fn finish(&mut self) {
+        if let Ok(path) = std::env::var("MC_PAIRS_FILE") {
+            let mut bytes = Vec::with_capacity(self.pairs.len() * 16);
+            for (k, v) in &self.pairs {
+                bytes.extend_from_slice(&k.to_le_bytes());
+                bytes.extend_from_slice(&v.to_le_bytes());
+            }
+            if let Ok(mut f) = std::fs::OpenOptions::new().create(true).append(true).open(path) {
+                let _ = f.write_all(&bytes);
+            }
+        }
         let mut s = J::obj();
         for (k, v) in &self.stats {
             s.put(k, *v);
@@ -262,6 +280,7 @@ pub fn make_worker_ctx(args: &[String]) -> WorkerCtx {
         heartbeat: 0,
         seed: std::env::var("VERIF_SEED").ok().and_then(|s| s.parse().ok()).unwrap_or(0),
         collected: None,
+        pairs: Vec::new(),
     }
 }
 
@@ -419,9 +438,11 @@ fn spawn_worker(exe: &str, check: &str, tier: Tier, shard: u64, nshards: u64, re
         .arg(resume_after.to_string())
         .arg(&marker_path)
         .env("MC_DISTINCT_FILE", &distinct_path)
+        .env("MC_PAIRS_FILE", format!("{dir}/w{shard}.pairs"))
         .stdin(Stdio::null())
         .stdout(Stdio::piped())
         .stderr(Stdio::inherit())
+        .process_group(0)
         .spawn()
         .expect("spawn worker");
     let stdout = child.stdout.take().unwrap();
@@ -456,6 +477,9 @@ pub struct Outcome {
     pub distinct: u64,
     pub crashes: Vec<J>,
     pub capped: bool,
+    /// keys whose observations disagree between workers
+    pub disagreements: Vec<(u64, Vec<u64>)>,
+    pub agreed_keys: u64,
 }
 
 fn jobs() -> u64 {
@@ -479,6 +503,8 @@ pub fn drive(exe: &str, check: &str, tier: Tier, hang_secs: u64) -> Outcome {
         distinct: 0,
         crashes: Vec::new(),
         capped: false,
+        disagreements: Vec::new(),
+        agreed_keys: 0,
     };
     let mut workers: Vec<WorkerProc> =
         (0..nshards).map(|s| spawn_worker(exe, check, tier, s, nshards, -1, &dir)).collect();
@@ -502,6 +528,10 @@ pub fn drive(exe: &str, check: &str, tier: Tier, hang_secs: u64) -> Outcome {
             let exited = w.child.try_wait().ok().flatten();
             let hung = exited.is_none() && w.last_change.elapsed() > Duration::from_secs(hang_secs);
             if hung {
+                // the worker leads its own process group: take forked children down with it
+                unsafe {
+                    libc::kill(-(w.child.id() as i32), libc::SIGKILL);
+                }
                 let _ = w.child.kill();
                 let _ = w.child.wait();
             }
@@ -561,6 +591,26 @@ pub fn drive(exe: &str, check: &str, tier: Tier, hang_secs: u64) -> Outcome {
         }
     }
     out.distinct = set.len() as u64;
+    // cross-worker agreement
+    let mut obs: HashMap<u64, Vec<u64>> = HashMap::new();
+    for s in 0..nshards {
+        if let Ok(b) = std::fs::read(format!("{dir}/w{s}.pairs")) {
+            for c in b.chunks_exact(16) {
+                let k = u64::from_le_bytes(c[0..8].try_into().unwrap());
+                let v = u64::from_le_bytes(c[8..16].try_into().unwrap());
+                obs.entry(k).or_default().push(v);
+            }
+        }
+    }
+    for (k, vs) in obs {
+        if vs.len() >= 2 {
+            out.agreed_keys += 1;
+        }
+        if vs.iter().any(|v| *v != vs[0]) {
+            out.disagreements.push((k, vs));
+        }
+    }
+    out.disagreements.sort();
     let _ = std::fs::remove_dir_all(&dir);
     out
 }
